@@ -512,7 +512,17 @@ def check_journal_position(ctx):
     C04.check_position(ctx, "C05.journal-position")
 
 
+def check_retire_queue(ctx):
+    """a superseded extent is given back only by the retirement pass that finds its Delete entry in RetirementQueue.pending: an
+    entry that is dropped from the queue (not put back after a pass that could not finish, overwritten or swapped away while
+    another worker was adding) leaves blocks that belong neither to a live record nor to the free pool (same rules as C19.retire)"""
+    from rules import C19
+    C19.check_retire(ctx, "C05.retire-queue")
+    C19.check_queue_writers(ctx, "C05.retire-queue/ops")
+
+
 def check(ctx):
+    check_retire_queue(ctx)
     check_journal_position(ctx)
     check_allocator_pair(ctx)
     check_release_len(ctx)
